@@ -16,7 +16,7 @@ pub fn def() -> PropDef {
         job_level,
         run_job,
         replay,
-        rule: "programs = ALL boolean expression trees with <= N nodes, depth <= 3, operators {and,or,not} of arity 1..3 over leaves {L0,L1,L2} (quick N=6, thorough N=7) + all single-path chains of depth 4..7 with every operator in every position, each in 2 leaf realisations (active key name; (input real k)); written as `(switch ((EXPR)) x break () y break)`, compiled by the real parser (60 programs per config) and executed through the full pipeline under ALL 8 truth assignments (leaf keys physically held or not). Case lists: all lists of <= 3 cases over conditions {(), (b), (c), ((not b))} x {break, fallthrough} under all 4 assignments, plus 8-long fallthrough chains. Leaf semantics: key-history / input-history recency 1..8, layer / base-layer, key-timing lt/gt for thresholds {0,1,5,255,256,262,263,300,511,2303,2304,2431,5000} scanned over every gap in [T-140, T+4]: decision boundary monotone and within the documented resolution (exact <= 255, rounded down to 8 ms < 2304, to 128 ms above). fork: all trigger sets over {lsft, b} x all active sets. Oracle: and = all, or = any, not = none (config.adoc); cases top to bottom, break stops, fallthrough continues. programs = program texts accepted by the parser; disagreements_checked = (program, assignment) evaluations compared.",
+        rule: "programs = ALL boolean expression trees with <= N nodes, depth <= 3, operators {and,or,not} of arity 1..3 over leaves {L0,L1,L2} (quick N=6, thorough N=7) + all single-path chains of depth 4..7 with every operator in every position, each in 2 leaf realisations (active key name; (input real k)); written as `(switch ((EXPR)) x break () y break)`, compiled by the real parser (60 programs per config) and executed through the full pipeline under ALL 8 truth assignments (leaf keys physically held or not). Case lists: all lists of <= 3 cases over conditions {(), (b), (c), ((not b))} x {break, fallthrough} under all 4 assignments, plus 8-long fallthrough chains. Leaf semantics: key-history / input-history recency 1..8, layer / base-layer (incl. ALL press/release histories of <= 5 events over three layer-while-held keys: the active layer is the most recently activated one still held), key-timing lt/gt for thresholds {0,1,5,255,256,262,263,300,511,2303,2304,2431,5000} scanned over every gap in [T-140, T+4]: decision boundary monotone and within the documented resolution (exact <= 255, rounded down to 8 ms < 2304, to 128 ms above). fork: all trigger sets over {lsft, b} x all active sets. Oracle: and = all, or = any, not = none (config.adoc); cases top to bottom, break stops, fallthrough continues. programs = program texts accepted by the parser; disagreements_checked = (program, assignment) evaluations compared.",
         assumptions: &[
             "expression shapes beyond N nodes / depth 3 (other than single-path chains to the parser's maximum depth) are not enumerated",
             "truth assignments are realised through physically held keys mapped to themselves",
@@ -583,6 +583,68 @@ fn run_leaves(st: &mut Stats) {
                     });
                 }
             }
+        }
+    }
+    // (layer X) with several held layers: "the active layer" is the most recently activated layer
+    // that is still held (config.adoc: layer / layer-while-held). b holds l1, c holds l2, d holds l3 on
+    // every layer; a carries the switch on every layer. ALL physically consistent press/release
+    // histories of <= 5 events over b, c, d, then a is pressed.
+    {
+        let sw = "(switch ((layer l3)) w break ((layer l2)) x break ((layer l1)) y break ((layer base)) z break () v break)";
+        let row = format!("{sw} (layer-while-held l1) (layer-while-held l2) (layer-while-held l3)");
+        let cfg = format!("(defcfg)\n(defsrc a b c d)\n(deflayer base {row})\n(deflayer l1 {row})\n(deflayer l2 {row})\n(deflayer l3 {row})\n");
+        let alpha: Vec<Ev> = ["b", "c", "d"].iter().flat_map(|k| [Ev::P(kc(k)), Ev::R(kc(k))]).collect();
+        let mut n = 0u64;
+        let mut bad: Option<Violation> = None;
+        for depth in 0..=5usize {
+            crate::explore::for_each_history(&alpha, depth, crate::explore::Consistency::Physical, &[], |h, _f, _d| {
+                if bad.is_some() || h.len() != depth {
+                    return;
+                }
+                // model: activation-ordered stack of held layers
+                let mut stack: Vec<usize> = vec![];
+                let mut hist = vec![];
+                for e in h {
+                    match e {
+                        Ev::P(c) => {
+                            let l = ["b", "c", "d"].iter().position(|k| kc(k) == *c).unwrap() + 1;
+                            stack.push(l);
+                        }
+                        Ev::R(c) => {
+                            let l = ["b", "c", "d"].iter().position(|k| kc(k) == *c).unwrap() + 1;
+                            stack.retain(|x| *x != l);
+                        }
+                        _ => {}
+                    }
+                    hist.push(*e);
+                    hist.push(Ev::T(2));
+                }
+                hist.push(Ev::P(kc("a")));
+                hist.push(Ev::T(3));
+                let want = ["Z", "Y", "X", "W"][stack.last().copied().unwrap_or(0)];
+                crate::par::announce(&cfg, &hist);
+                n += 1;
+                match crate::sim::run_fresh(&cfg, &hist) {
+                    Err(m) => bad = Some(Violation { property: "C10".into(), signature: format!("layer-stack::{}", panic_signature(&m)), what: m, detail: json!({"kind": "leaf", "cfg": cfg, "history": crate::sim::hist_to_string(&hist)}) }),
+                    Ok((_, tr)) => {
+                        let last = tr.iter().rev().find_map(|(_, o)| if let Out::Down(k) = o { Some(k.clone()) } else { None }).unwrap_or_default();
+                        if last != want {
+                            bad = Some(Violation {
+                                property: "C10".into(),
+                                signature: "layer-stack::wrong-active-layer".into(),
+                                what: format!("(layer X) with held layers {stack:?} (activation order) after [{}]: expected {want}, observed {last}", crate::sim::hist_to_string(&hist)),
+                                detail: json!({"kind": "leaf", "cfg": cfg, "history": crate::sim::hist_to_string(&hist)}),
+                            });
+                        }
+                    }
+                }
+            });
+        }
+        st.evaluations += n;
+        st.validated += n;
+        st.count("layer_condition_held_stack_histories", n);
+        if let Some(v) = bad {
+            st.violation(v);
         }
     }
     st.sample(json!({"family": "leaf semantics", "key-history/input-history": "recency 1..8 x 8 keys", "layer/base-layer": 4}));
